@@ -196,3 +196,63 @@ def mixed_oracle(ctx, prop):
     finally:
         inject.clear()
     return n
+
+
+def rc_history_oracle(ctx, how, n_expr=12):
+    """requirement_constraint_evaluation on ahbicht's own content-evaluation-result based evaluators, one evaluation after the other, the assignment
+    delivered the ways a caller can deliver it: a freshly dumped body per evaluation, and ONE body dict whose content is replaced in place between
+    evaluations (an evaluatable-data provider that hands out its current message object). Every evaluation must report the outcome the compositional
+    semantics gives for ITS assignment. returns the number of evaluations"""
+    import inject
+    from ahbicht.expressions.requirement_constraint_expression_evaluation import requirement_constraint_evaluation
+    from ahbicht.models.condition_nodes import ConditionFulfilledValue as V
+
+    from vlib import exprs
+
+    rng = ctx.rng
+    want_outcome = {V.FULFILLED: (True, True), V.NEUTRAL: (True, False), V.UNFULFILLED: (False, True), V.UNKNOWN: (None, None)}
+    trees = [("L", "1"), ("and", ("L", "1"), ("L", "2")), ("or", ("L", "1"), ("L", "2")), ("xor", ("and", ("L", "1"), ("L", "2")), ("L", "3")),
+             ("and", ("L", "1"), ("L", "501")), ("then", ("or", ("L", "2"), ("L", "3")), ("L", "901"))]
+    for _ in range(n_expr):
+        for _try in range(30):
+            t = exprs.random_dom_tree(rng, rng.randint(2, 5), ["1", "2", "3"], ["501", "502"], ["901", "902"])
+            if exprs.valid(t):
+                trees.append(t)
+                break
+    n = 0
+    _configure()
+    try:
+        for t in trees:
+            text = exprs.to_string(t)
+            rk = sorted({k for k in exprs.leaves(t) if exprs.kind(k) == "rc"})
+            hints = {k: f"Hinweis {k}" for k in exprs.leaves(t) if exprs.kind(k) == "hint"}
+            fcs = {k: True for k in exprs.leaves(t) if exprs.kind(k) == "fc"}
+            assigns = list(exprs.assignments(rk, ("FULFILLED", "UNFULFILLED", "UNKNOWN")))
+            rng.shuffle(assigns)
+            assigns = assigns[:9]
+            shared = {}
+            for mode in ("fresh body per evaluation", "one body updated in place"):
+                for rho in assigns:
+                    b = _body(rc=rho, fc=fcs, hints=hints)
+                    if mode.startswith("one"):
+                        shared.clear()
+                        shared.update(b)
+                        b = shared
+                    _var.set(b)
+                    res = _outcome(lambda: asyncio.run(_in_context(requirement_constraint_evaluation, text, b)))
+                    n += 1
+                    want = want_outcome[exprs.sem(t, {k: V[s] for k, s in rho.items()}, V)]
+                    got = (res[1].requirement_constraints_fulfilled, res[1].requirement_is_conditional) if res[0] == "ok" else f"raises {res[1]}"
+                    if got != want:
+                        ctx.fail(f"cer-history|{text}|{sorted(rho.items())}|{mode}", {"kind": "cer-history", "expression": text, "rc": rho, "delivery": mode,
+                                                                                      "earlier_assignments": [dict(a) for a in assigns[:assigns.index(rho)]]},
+                                 f"(fulfilled, conditional) = {want}", str(got), how)
+                        break
+    finally:
+        inject.clear()
+    return n
+
+
+async def _in_context(fn, arg, body):
+    _var.set(body)
+    return await fn(arg)
